@@ -38,12 +38,13 @@ XY2LL == /\ Is("xy2ll")
          /\ UNCHANGED <<tid, S>>
 
 \* --- round trip: position (2^-16 cell) -> lon/lat -> position ; residual in lon/lat (2^-20 deg) below the solver
-\*     tolerance  (dlon^2 + dlat^2 < 1e-7 deg^2  =  109951 quanta^2), position within 1/32 cell
+\*     tolerance  (dlon^2 + dlat^2 < 1e-7 deg^2  =  109951 quanta^2).  The solver tolerance is stated in degrees; with cells of
+\*     >= 8/1024 degree it corresponds to at most ~0.05 cell, so the position clause (1/8 cell) only catches gross errors
 TolQ == 109951 + 4096
 Round == /\ Is("roundtrip")
          /\ Mark(All(<<Check("roundtrip.finite", ~Ev.bad),
                        Check("roundtrip.lonlat_residual", (Ev.lon1 - Ev.lon0) * (Ev.lon1 - Ev.lon0) + (Ev.lat1 - Ev.lat0) * (Ev.lat1 - Ev.lat0) <= TolQ),
-                       Check("roundtrip.position", Abs(Ev.x1 - Ev.x0) <= 2048 /\ Abs(Ev.y1 - Ev.y0) <= 2048)>>))
+                       Check("roundtrip.position", Abs(Ev.x1 - Ev.x0) <= 8192 /\ Abs(Ev.y1 - Ev.y0) <= 8192)>>))
          /\ UNCHANGED <<tid, S>>
 
 \* --- a particle released by lon/lat sits where the interpolated lon/lat are the given ones; lon/lat written with a
